@@ -1016,11 +1016,14 @@ func (context *layoutContext) makeAllPages(rootBox bo.BlockLevelBoxITF, html *tr
 			context.pageMaker[i].RemakeState = tree.RemakeState{}
 			page, resumeAt = context.remakePage(i, rootBox, html)
 			reportedFootnotes = context.reportedFootnotes
+			context.reportedFootnotesAfterPage[i] = append([]Box(nil), reportedFootnotes...)
 			out = append(out, page)
 		} else {
 			logger.ProgressLogger.Printf("Step 5 - Creating layout - Page %d (up-to-date)", i+1)
 			resumeAt = context.pageMaker[i+1].InitialResumeAt
-			reportedFootnotes = nil
+			// the page is kept: so are the footnotes it reported to the next page
+			reportedFootnotes = context.reportedFootnotesAfterPage[i]
+			context.reportedFootnotes = append([]Box(nil), reportedFootnotes...)
 			out = append(out, pages[i])
 		}
 
